@@ -66,8 +66,9 @@ func (g *generatorContext) parseType(t reflect.Type) (_ node, returnedError erro
 		}
 		return n, nil
 	}
-	if t.Implements(parseableType) {
-		return &parseable{t.Elem()}, nil
+	if t.Kind() != reflect.Interface && t.Implements(parseableType) {
+		// Parse has a value receiver: the pointer parseable.Parse allocates implements Parseable too.
+		return &parseable{t}, nil
 	}
 	if reflect.PtrTo(t).Implements(parseableType) {
 		return &parseable{t}, nil
